@@ -47,6 +47,11 @@ also accepts the English token it denotes. -/
 theorem consumer_clauses_closed :
     ∀ c ∈ consumerClauses, ∀ t ∈ c, kwImage t = none ∨ ∃ e ∈ c, kwImage t = some [e] := by decide
 
+/-- Every `case` list / comparison chain anywhere in the code base that dispatches on builtin NAMES and
+lists an English builtin lists exactly its Chinese twin(s) too (ssa builder, WAT back end, ...). -/
+theorem builtin_name_clauses_closed :
+    ∀ c ∈ kNameClauses, (∀ p ∈ builtinPairs, p.1 ∉ c) ∨ ∀ p ∈ builtinPairs, (p.1 ∈ c ↔ p.2 ∈ c) := by decide
+
 /-- Each Chinese predeclared name denotes the same object (scope, kind/type, builtin id, constant
 value, role) as exactly one object of the English universe, and no two Chinese names share one. -/
 theorem universe_map_bijective_on_shared :
